@@ -548,8 +548,9 @@ def r4(ctx, cfg, R="C14.R4", parts=("Delegate", "Undelegate", "Redelegate")):
                 d = dict(P.rvalue(f, st["rv"], (b, i))[2])
                 pa = peel(d["payout_at"])
                 ok = is_param(d["delegator"], "sender") and msgf(d["validator"], "validator") and contains(d["amount"], lambda x: x[0] == "field" and x[2] == "amount" and msgf(x[1], "amount")) and \
-                    pa[0] == "call" and pa[1].endswith("Timestamp::plus_seconds") and contains(pa[2][0], lambda x: x[0] == "field" and x[2] == "time" and is_param(x[1], "block")) and \
-                    contains(pa[2][1], lambda x: x[0] == "field" and x[2] == "unbonding_time")
+                    pa[0] == "call" and pa[1].endswith("Timestamp::plus_seconds") and \
+                    peel(pa[2][0])[0] == "field" and peel(pa[2][0])[2] == "time" and is_param(peel(pa[2][0])[1], "block") and \
+                    peel(pa[2][1])[0] == "field" and peel(pa[2][1])[2] == "unbonding_time"   # (exactly these two, nothing computed from them)
                 ok = ok and _succ_dom(P, f, b, SK + "remove_stake")
             ctx.ob(R, EXEC, "Undelegate-queue-entry(sender, validator, amount, block.time+unbonding_time)", ok, "unbonding entry is not (sender, validator, amount.amount, block.time + unbonding_time) after remove_stake",
                    fn=f, sample="Unbonding{delegator: sender, validator, amount: amount.amount, payout_at: block.time + unbonding_time}")
